@@ -9,6 +9,8 @@ import (
 	"fmt"
 	"os"
 	"sort"
+	"sync"
+	"sync/atomic"
 	"testing"
 	"time"
 
@@ -16,6 +18,7 @@ import (
 	"github.com/MixinNetwork/mixin/crypto"
 	"github.com/MixinNetwork/mixin/verifmc"
 	"github.com/MixinNetwork/mixin/verifmc/fixc"
+	"github.com/dgraph-io/badger/v4"
 )
 
 // C35 — local topology order is a strictly increasing unique cursor.
@@ -41,9 +44,9 @@ type c35State struct {
 	writes  [3]int
 	idx     int
 	hist    []byte
-	fresh   bool                 // no write since the node was (re)built
-	pending []int                // replayed events not executed yet (see c35Step)
-	jump    uint64               // synthetic: counter value set right before the first write (0 = none)
+	fresh   bool   // no write since the node was (re)built
+	pending []int  // replayed events not executed yet (see c35Step)
+	jump    uint64 // synthetic: counter value set right before the first write (0 = none)
 	jumped  bool
 	lastTx  *crypto.Hash         // transaction of the most recent write on chain A or B
 	onC     map[crypto.Hash]bool // transactions already carried by a snapshot of chain C
@@ -400,8 +403,8 @@ func c35RefPositions(l []c35Rec) []uint64 {
 func TestMC_C35(t *testing.T) {
 	c := verifmc.Start(t, "C35", "model_checking")
 	defer c.Finish()
-	c.SetRule("BFS over all histories of {TopoWrite of the next prepared one-transaction snapshot on chain A/B/C (A,B: fresh deposit; C: re-finalization of the latest A/B transaction when not yet on C, else a fresh deposit), close + reopen of the on-disk store with a real SetupNode} (histories without a reopen run on in-memory Badger, all others on disk); state = sequence of writes with reopen marks (a reopen directly after (re)building the node is the same state); in every state the full menu ReadSnapshotsSinceTopology(off,cnt) for off in {0,1,middle,last,last+1,2^64-1} x cnt in {0,1,2,500,501}, ReadSnapshotWithTransactionsSinceTopology, ReadSnapshot of every written and one unknown hash, and the raw TOPOLOGY/SNAPTOPO dump are compared with a Go slice of (position, payload hash)")
-	c.Assume("snapshots are handed to Node.TopoWrite directly (the finalization path above it is not part of this property)", "the reference prefix is the genesis snapshot list produced by Genesis.BuildSnapshots", "Badger transactions are atomic; close is clean (no crash)")
+	c.SetRule("(1) BFS over all histories of {TopoWrite of the next prepared one-transaction snapshot on chain A/B/C (A,B: fresh deposit; C: re-finalization of the latest A/B transaction when not yet on C, else a fresh deposit), close + reopen of the on-disk store with a real SetupNode} (histories without a reopen run on in-memory Badger, all others on disk); state = sequence of writes with reopen marks (a reopen directly after (re)building the node is the same state); in every state the full menu ReadSnapshotsSinceTopology(off,cnt) for off in {0,1,middle,last,last+1,2^64-1} x cnt in {0,1,2,500,501}, ReadSnapshotWithTransactionsSinceTopology, ReadSnapshot of every written and one unknown hash, and the raw TOPOLOGY/SNAPTOPO dump are compared with a Go slice of (position, payload hash); (2) the same BFS over {write-A, write-B, reopen} with the node's counter set (synthetic) to 65533 before the first write so that positions are non-contiguous and cross 65536, extra offsets {8,65528,65534,65535,65536}; (3) every interleaving up to the preemption bound of two threads calling TopoWrite on different chains (scheduling points: counter mutex, store mutex, Badger txn begin/commit)")
+	c.Assume("snapshots are handed to Node.TopoWrite directly (the finalization path above it is not part of this property)", "the reference prefix is the genesis snapshot list produced by Genesis.BuildSnapshots", "Badger transactions are atomic; close is clean (no crash)", "the counter jump of part (2) is synthetic (harness writes node.TopoCounter.seq); everything after it is the real code", "part (3): a Badger transaction reads at begin and publishes at commit, so mutexes and begin/commit are the scheduling points that matter")
 
 	// sanity of the fixture before exploring
 	{
@@ -413,25 +416,190 @@ func TestMC_C35(t *testing.T) {
 		c35Close(s)
 	}
 	depth := verifmc.Pick(c, 4, 6)
-	b := &verifmc.BFS[*c35State]{
-		C: c, NumEvents: len(c35Events), MaxDepth: depth,
-		EventName: func(e int) string { return c35Events[e] },
-		New:       c35New,
-		Apply: func(s *c35State, e int, replaying bool, report func(key, desc string)) bool {
-			ok := c35Step(s, e, replaying, report)
+	step := func(evmap []int) func(s *c35State, e int, replaying bool, report func(key, desc string)) bool {
+		return func(s *c35State, e int, replaying bool, report func(key, desc string)) bool {
+			ok := c35Step(s, evmap[e], replaying, report)
 			if ok && !replaying && s.m != nil {
 				n := int64(len(c35Counts)*len(c35Offsets(c35SortedRef(s))) + 3 + len(s.ref) + 1 + 1) // listings + with-transactions + lookups + unknown + raw dump
 				c.Add("queries", n)
 				c.Eval(n)
 			}
 			return ok
-		},
-		Key:   c35Key,
-		Close: c35Close,
+		}
+	}
+	b := &verifmc.BFS[*c35State]{
+		C: c, NumEvents: len(c35Events), MaxDepth: depth,
+		EventName: func(e int) string { return c35Events[e] },
+		New:       c35New,
+		Apply:     step([]int{0, 1, 2, 3}),
+		Key:       c35Key,
+		Close:     c35Close,
 	}
 	states, trans, d, _ := b.Run()
 	c.Set("max_depth", d)
 	c.Set("chains", 3)
+	c.Set("bfs_main", map[string]int64{"states": states, "transitions": trans})
 	c.Require(states >= 100 && trans > states, "vacuous C35 exploration: %d states %d transitions", states, trans)
 	c.Require(c.OutcomeCount("event:reopen") > 0 && c.OutcomeCount("event:write-A") > 0 && c.OutcomeCount("event:write-C") > 0, "an event never fired")
+
+	// second exploration: the same histories over {write-A, write-B, reopen} with the
+	// node's counter moved (synthetically) next to a 2-byte boundary of the position key
+	jm := []int{0, 1, 3}
+	var crossed atomic.Int64
+	jstep := step(jm)
+	bj := &verifmc.BFS[*c35State]{
+		C: c, NumEvents: len(jm), MaxDepth: verifmc.Pick(c, 4, 5),
+		EventName: func(e int) string { return "jump:" + c35Events[jm[e]] },
+		New:       c35NewJump,
+		Apply: func(s *c35State, e int, replaying bool, report func(key, desc string)) bool {
+			ok := jstep(s, e, replaying, report)
+			if ok && !replaying && s.maxPos() >= 65536 {
+				crossed.Add(1)
+			}
+			return ok
+		},
+		Key:   c35Key,
+		Close: c35Close,
+	}
+	js, jt, _, _ := bj.Run()
+	c.Set("bfs_synthetic_jump", map[string]int64{"states": js, "transitions": jt, "counter_set_to": c35JumpTo, "states_beyond_65536": crossed.Load()})
+	c.Require(js >= 40 && crossed.Load() >= 10, "vacuous jump exploration: %d states, %d beyond the boundary", js, crossed.Load())
+
+	c35Concurrent(c)
+}
+
+// ---- concurrent part: two finalizers call TopoWrite at the same time -----------------
+
+type c35Ret struct {
+	Thread int
+	Pos    uint64
+}
+
+// c35Concurrent explores every interleaving (up to the preemption bound) of
+// concurrent TopoWrite calls on different chains at the counter mutex, the store
+// mutex and the Badger transaction begin/commit points. Oracle: positions are
+// returned in strictly increasing order, and once a call has returned position
+// p every position <= p is stored (the listing from 0 is contiguous up to p: a
+// pager that advanced to p+1 can never miss a snapshot).
+func c35Concurrent(c *verifmc.Check) {
+	badger.VerifHook = func(kind, dir string, writes int) error {
+		verifmc.Point("txn." + kind)
+		return nil
+	}
+	defer func() { badger.VerifHook = nil }()
+	scenarios := []struct {
+		name    string
+		threads [][]int // chains written by each thread, in order
+	}{
+		{"A|B", [][]int{{0}, {1}}},
+		{"A,C|B", [][]int{{0, 2}, {1}}},
+	}
+	bound := verifmc.Pick(c, 2, 3)
+	var mu sync.Mutex
+	var execs int64
+	orders := map[string]bool{}
+	c.ParallelN(len(scenarios), "concurrent TopoWrite", func(_, si int) {
+		sc := scenarios[si]
+		ex := &verifmc.Explorer{C: c, Bound: bound, Name: "concurrent:" + sc.name}
+		ex.Body = func(sched *verifmc.Sched, report func(key, desc string)) string {
+			s := c35New(0)
+			s.open(false)
+			defer c35Close(s)
+			genesis := len(s.ref)
+			// prepare every snapshot before the threads start (transactions locked and written)
+			type prepared struct {
+				snap    *common.Snapshot
+				signers []crypto.Hash
+			}
+			prep := make([][]prepared, len(sc.threads))
+			for ti, chains := range sc.threads {
+				for _, ci := range chains {
+					s.idx++
+					s.lastTx = nil // fresh deposits only: the snapshots are independent
+					snap, signers := c35Prepare(s, ci)
+					s.writes[ci]++
+					prep[ti] = append(prep[ti], prepared{snap, signers})
+				}
+			}
+			var rets []c35Ret // return order (one thread runs at a time)
+			hashes := map[uint64]crypto.Hash{}
+			for ti := range sc.threads {
+				ti := ti
+				sched.Go(fmt.Sprint("t", ti), func() {
+					for _, p := range prep[ti] {
+						topo := s.m.Node.TopoWrite(p.snap, p.signers)
+						rets = append(rets, c35Ret{ti, topo.TopologicalOrder}) // no scheduling point since the return
+						hashes[topo.TopologicalOrder] = p.snap.PayloadHash()
+						if n := len(rets); n > 1 && rets[n-2].Pos >= topo.TopologicalOrder {
+							report("concurrent-return-order", fmt.Sprintf("scenario %s: TopoWrite returned position %d after position %d had been returned", sc.name, topo.TopologicalOrder, rets[n-2].Pos))
+						}
+						got, err := s.m.Store.ReadSnapshotsSinceTopology(0, 500)
+						if err != nil {
+							report("concurrent-listing-error", err.Error())
+							continue
+						}
+						have := map[uint64]bool{}
+						for _, g := range got {
+							have[g.TopologicalOrder] = true
+						}
+						for q := uint64(0); q <= topo.TopologicalOrder; q++ {
+							if !have[q] {
+								report("concurrent-hole", fmt.Sprintf("scenario %s: TopoWrite returned position %d while position %d is not stored (listing from 0: %v); a pager at %d skips it for good", sc.name, topo.TopologicalOrder, q, c35Positions(got), topo.TopologicalOrder+1))
+								break
+							}
+						}
+					}
+				})
+			}
+			panics := sched.RunAll()
+			for ti, p := range panics {
+				if p != nil {
+					report("concurrent-panic", fmt.Sprintf("scenario %s thread %d: %v", sc.name, ti, p))
+				}
+			}
+			if sched.Deadlock {
+				report("concurrent-deadlock", "no enabled thread: "+fmt.Sprint(sched.Trace))
+				return "deadlock"
+			}
+			// final state: every returned position holds the returned snapshot
+			total := 0
+			for _, p := range prep {
+				total += len(p)
+			}
+			if len(rets) == total {
+				sorted := append([]c35Ret(nil), rets...)
+				sort.Slice(sorted, func(i, j int) bool { return sorted[i].Pos < sorted[j].Pos })
+				for _, r := range sorted {
+					s.ref = append(s.ref, c35Rec{Pos: r.Pos, Hash: hashes[r.Pos]})
+				}
+				got, err := s.m.Store.ReadSnapshotsSinceTopology(uint64(genesis), 500)
+				if err != nil || len(got) != total {
+					report("concurrent-final-listing", fmt.Sprintf("scenario %s: %d snapshots listed after genesis, %d written: %v", sc.name, len(got), total, err))
+				} else {
+					for i, g := range got {
+						if g.TopologicalOrder != sorted[i].Pos || g.PayloadHash() != hashes[sorted[i].Pos] {
+							report("concurrent-final-listing", fmt.Sprintf("scenario %s: listed element %d is (%d,%s), written (%d,%s)", sc.name, i, g.TopologicalOrder, g.PayloadHash(), sorted[i].Pos, hashes[sorted[i].Pos]))
+						}
+					}
+				}
+			}
+			out := ""
+			for _, r := range rets {
+				out += fmt.Sprintf("t%d=%d ", r.Thread, r.Pos)
+			}
+			mu.Lock()
+			orders[sc.name+":"+out] = true
+			mu.Unlock()
+			return out
+		}
+		ex.Run()
+		mu.Lock()
+		execs += ex.Executions
+		mu.Unlock()
+	})
+	c.Set("concurrent_scenarios", len(scenarios))
+	c.Set("concurrent_executions", execs)
+	c.Set("preemption_bound", bound)
+	c.Set("concurrent_return_orders", len(orders))
+	c.Require(execs >= 20 && (len(orders) >= 4 || c.Violations() > 0), "vacuous concurrent part: %d executions, %d distinct return orders", execs, len(orders))
 }
